@@ -51,7 +51,7 @@ def scenario(args):
     import random
     rng = random.Random(f"C13/{seed}")
     kind = rng.choice(["blackout-long", "blackout-long", "blackout-short", "revoke", "revoke-early", "idle", "idle-consent", "loss",
-                       "blackout-at-ready", "other-stream-removed"])
+                       "blackout-at-ready", "other-stream-removed", "restart-in-blackout"])
     consent = 0 if kind == "idle" else 1
     s = None
     bad = []
@@ -111,6 +111,34 @@ def scenario(args):
             if gaps and max(gaps) > 8000:
                 bad.append(("silent-pair", f"agent {who} sent nothing for {max(gaps)} ms on its surviving stream after removing stream {gone}"))
             info.update(who=who, gone=gone)
+            return dict(seed=seed, kind=kind, bad=bad, script=s.script, info=info)
+        if kind == "restart-in-blackout":
+            # answers stop; a few seconds into the silence the application restarts ICE and the new remote credentials never
+            # arrive: the pair that was kept for media must still lose consent 30 s after its last answer
+            sc.deliver_signalling(s, rng, sc.signalling_steps(rng, cfg))
+            s.op("runidle 30000")
+            if any(simlib.parse_q(s.op(f"q {ag} 1 1")[1])["state"] != "READY" for ag in "AB"):
+                return dict(seed=seed, kind=kind, bad=[("setup", "session did not reach READY")], script=s.script, info=info)
+            s.op(f"run {rng.choice([3000, 7000, 12000])}")
+            t0 = now_ms(s)
+            s.op(f"net blackout * * {t0} {t0 + 90000}")
+            s.op(f"run {rng.choice([2000, 8000, 15000])}")
+            who = rng.choice("AB")
+            s.op(rng.choice([f"restart {who}", f"restartstream {who} 1"]))
+            s.op("run 60000")
+            last = None
+            for e in s.events():
+                m = EV_RX.match(e)
+                if m and m.group(2) == who and m.group(5) == "2" and int(m.group(1)) <= t0:
+                    last = int(m.group(1))
+            tfail = first_state(s, who, "FAILED", after=t0)
+            if tfail is None:
+                bad.append(("no-failure", f"agent {who} restarted ICE during a blackout that began at t={t0} (last answer at {last}) and never got new "
+                                          f"credentials: FAILED was not announced within 70 s"))
+            st = s.op(f"send {who} 1 1 aabb")[1]
+            if "err" not in st:
+                bad.append(("send-not-denied", f"send on {who} 70 s into the blackout (ICE restarted meanwhile) returned `{st}`"))
+            info.update(who=who)
             return dict(seed=seed, kind=kind, bad=bad, script=s.script, info=info)
         steps = sc.signalling_steps(rng, cfg)
         sc.deliver_signalling(s, rng, steps)
